@@ -328,7 +328,7 @@ def fail_problems(b, mode, rule, text, k, r):
     if not (pos == -1 or k <= pos <= len(text)):
         return f"furthest_pos {pos} outside [{k},{len(text)}]"
     p = b.parsers[mode]
-    rules = (b.parsers["I"] if mode in ("I", "IG") else b.parsers.get("O", b.parsers["I"])).rules
+    rules = b.parsers["I"].rules          # the grammar's own rules and the built-ins (no synthetic SKIP)
     for nm in r[2] + r[3]:
         if nm not in rules:
             return f"listed rule name {nm!r} is not a rule of the grammar or a built-in"
